@@ -68,13 +68,21 @@ type solveResult struct {
 }
 
 func runSolver(ctx context.Context, sp solverSpec, file string, timeoutS int) solveResult {
-	args := sp.cmd(file, timeoutS)
+	// The time limit of an obligation is CPU time (ulimit -t), so that a proof found in N seconds on
+	// an idle machine is still found when the cores are shared with other checks; the solver's own
+	// wall-clock limit is twice that.
+	args := sp.cmd(file, timeoutS*2)
 	start := time.Now()
-	cmd := exec.CommandContext(ctx, args[0], args[1:]...)
+	sh := append([]string{"-c", fmt.Sprintf("ulimit -t %d; exec \"$@\"", timeoutS+1), "sh"}, args...)
+	cmd := exec.CommandContext(ctx, "/bin/sh", sh...)
 	var out bytes.Buffer
 	cmd.Stdout = &out
 	cmd.Stderr = &out
 	cmd.Run()
+	if cmd.ProcessState != nil && !cmd.ProcessState.Exited() && ctx.Err() == nil && !strings.HasPrefix(strings.TrimSpace(out.String()), "unsat") && !strings.HasPrefix(strings.TrimSpace(out.String()), "sat") {
+		out.Reset()
+		out.WriteString("timeout\n(cpu time limit reached)")
+	}
 	ms := time.Since(start).Milliseconds()
 	first := strings.TrimSpace(out.String())
 	if i := strings.IndexByte(first, '\n'); i >= 0 {
@@ -213,7 +221,7 @@ func solveAll(c *Ctx, obls []*Obligation, dir string, timeoutS int, all bool, pa
 }
 
 func runSolverSimple(sp solverSpec, file string, timeoutS int) solveResult {
-	ctx, cancel := context.WithTimeout(context.Background(), time.Duration(timeoutS+2)*time.Second)
+	ctx, cancel := context.WithTimeout(context.Background(), time.Duration(2*timeoutS+3)*time.Second)
 	defer cancel()
 	return runSolver(ctx, sp, file, timeoutS)
 }
